@@ -20,6 +20,7 @@ import DarkluaModel.Rules.AllocSteps
 import DarkluaModel.Rules.UnusedVariableHeap
 import DarkluaModel.Rules.UnusedVariableHeapV
 import DarkluaModel.Rules.UnusedVariableHeapV2
+import DarkluaModel.Shared.VisitorSound.HeapV.VOracle
 import DarkluaModel.Rules.NilDeclarationHeap
 import DarkluaModel.Rules.NilDeclarationHeap2
 import DarkluaModel.Rules.ConvertIndexWhole
@@ -814,6 +815,15 @@ example : Rules.UnusedVariable.GuardedV2.applyG allocApi unusedCallSample = Rule
   rw [h3, h2]
   intro h
   simp [unusedCallSampleOut] at h
+
+/-- the stage-4 theorems at the oracle the harness actually runs (`Shared.driverOracle`: results are scalars,
+`Sem.HeapV.driverOracle_flat`) — no hypothesis on the oracle left -/
+theorem rule_refines_remove_unused_variable_partialV2_driver (api : EvalApi) (b : Block)
+    (h : Rules.UnusedVariable.GuardedV2.applyG api b = Rules.UnusedVariable.apply api b) (n : Nat) (externs : List String) :
+    runProgram Shared.driverOracle n externs (Rules.UnusedVariable.apply api b) = runProgram Shared.driverOracle n externs b :=
+  rule_refines_remove_unused_variable_partialV2 api b h _ Sem.HeapV.driverOracle_flat n externs
+
+example : Sem.HeapV.OracleFlat Shared.driverOracle := Sem.HeapV.driverOracle_flat
 
 /-! ### remove_nil_declaration — whole rule on a fragment (stage-3 lifting: equality up to cell renumbering) -/
 
